@@ -6,6 +6,8 @@ from framework.report import Report
 RULE = ("random in-contract models (1-5 shared domains, aliases with offsets, 1-5 constraints of all shipped types, "
         "repeated variables) x random configurations (BC/shaving x 4 variable x 5 value heuristics) x constraint "
         "permutations, exhaustive enumeration on the real solver in both modes; Counter(solutions) must equal O-brute. "
+        "Beyond brute force: large models built around a planted assignment (8-35 variables, arity <= 12), partially "
+        "fixed to it - a completed enumeration must contain the planted assignment, without duplicates. "
         "distinct = distinct (model, cfg); non-trivial = the search made >= 1 choice")
 
 
@@ -14,8 +16,13 @@ def main(tier, seed):
     if common.warm_cache("jit") < 0:
         rep.inconclusive.append("JIT cache warm-up failed")
     jobs = modelfamily.build_jobs("C02", tier, seed, do=["enum"], monitors=["budget"], orders=1)
-    common.run_jobs(jobs)
+    from framework.props import bigrun
+
+    big = bigrun.jobs("C02", tier, seed + 1)
+    common.run_jobs(jobs + big)
     modelfamily.aggregate(rep, jobs)
+    bigrun.aggregate(rep, big)
+    rep.need("big.enumerations_completed", 100, "completed enumerations of large planted models")
     rep.need("runs_interp", 500, "interpreted runs")
     rep.need("runs_jit", 300, "compiled runs")
     rep.need("engine.choices", 1000, "branching")
